@@ -119,7 +119,11 @@ type connKit struct {
 //
 // NOTE: This is part of the net.Conn interface.
 func (k *connKit) Read(b []byte) (int, error) {
-	if k.recvBuffer.Len() == 0 {
+	// NOTE: a control message may carry an empty payload (the peer wrote
+	// zero bytes). Reading from the still empty buffer would then report
+	// io.EOF although the connection is perfectly alive, so we keep
+	// receiving until we have data.
+	for k.recvBuffer.Len() == 0 {
 		data := NewMsgData(ProtocolVersion, nil)
 		if err := k.impl.ReceiveControlMsg(data); err != nil {
 			return 0, err
